@@ -39,17 +39,17 @@ func (t T1) Get() T0 { return t.In }
 // VD is a value description: the same tree is turned into a Go value for the
 // implementation and into a Coq [vdesc] term for the model.
 type VD struct {
-	K   string  `json:"k"` // nil bool int float str html slice map struct ptr nilptr go
-	B   bool    `json:"b,omitempty"`
-	I   int     `json:"i,omitempty"`
-	S   string  `json:"s,omitempty"`
-	Ety string  `json:"ety,omitempty"` // iface int string T0
-	Kty string  `json:"kty,omitempty"`
-	Els []VD    `json:"els,omitempty"`
-	Ks  []VD    `json:"ks,omitempty"`
-	Tn  string  `json:"tn,omitempty"`
+	K   string   `json:"k"` // nil bool int float str html slice map struct ptr nilptr go
+	B   bool     `json:"b,omitempty"`
+	I   int      `json:"i,omitempty"`
+	S   string   `json:"s,omitempty"`
+	Ety string   `json:"ety,omitempty"` // iface int string T0
+	Kty string   `json:"kty,omitempty"`
+	Els []VD     `json:"els,omitempty"`
+	Ks  []VD     `json:"ks,omitempty"`
+	Tn  string   `json:"tn,omitempty"`
 	Fn  []string `json:"fn,omitempty"`
-	Id  int     `json:"id,omitempty"`
+	Id  int      `json:"id,omitempty"`
 }
 
 func vNil() VD             { return VD{K: "nil"} }
@@ -69,13 +69,15 @@ func vMap(kty, vty string, kvs ...VD) VD { // kvs = k1, v1, k2, v2 ...
 	}
 	return m
 }
-func vT0(name string) VD { return VD{K: "struct", Tn: "T0", Fn: []string{"Name"}, Els: []VD{vStr(name)}} }
+func vT0(name string) VD {
+	return VD{K: "struct", Tn: "T0", Fn: []string{"Name"}, Els: []VD{vStr(name)}}
+}
 func vT1(name string) VD {
 	return VD{K: "struct", Tn: "T1", Fn: []string{"Name", "In", "Ins", "PIn", "NilP", "priv", "M", "Tags", "N"},
 		Els: []VD{vStr(name), vT0(name + ".In"), vSlice("T0", vT0(name+".Ins[0]"), vT0(name+".Ins[1]")), vPtr(vT0(name + ".PIn")), VD{K: "nilptr", Tn: "T0"},
 			vStr("secret"), vMap("string", "T0", vStr("k"), vT0(name+".M[k]")), vSlice("string", vStr("t0"), vStr("t1")), vInt(7)}}
 }
-func vPtr(v VD) VD              { return VD{K: "ptr", Els: []VD{v}} }
+func vPtr(v VD) VD             { return VD{K: "ptr", Els: []VD{v}} }
 func vGo(id int, cfg ...VD) VD { return VD{K: "go", Id: id, Els: cfg} }
 
 var coqTy = map[string]string{"iface": "TyIface", "int": "TyInt", "string": "TyString", "bool": "TyBool", "float": "TyFloat", "T0": "(TyStruct tn_T0)", "T1": "(TyStruct tn_T1)"}
